@@ -234,7 +234,7 @@ def recursive(h):
     mut_check(h, 'Mahony(b0=b).updateIMU', lambda bb, qq, gg, aa: flt.Mahony(b0=bb).updateIMU(qq, gg, aa), [b0, h.arr(list(q)), g, a], repeat=False)
 
 
-@harness('C19/filters.repeatable', allowed_exc=(ValueError,), functions=[FF + 'aqua:AQUA.updateIMU', FF + 'aqua:AQUA.updateMARG',
+@harness('C19/filters.repeatable', tiers=('thorough',), allowed_exc=(ValueError,), functions=[FF + 'aqua:AQUA.updateIMU', FF + 'aqua:AQUA.updateMARG',
                                                                            FF + 'aqua:AQUA.estimate', FF + 'aqua:adaptive_gain',
                                                                            FF + 'madgwick:Madgwick.updateIMU'], max_paths=24)
 def repeatable(h):
